@@ -11,12 +11,12 @@ import (
 )
 
 func c15EmptySvc(image string) c15Svc {
-	return c15Svc{Image: image, Profiles: []string{}, Deps: map[string]c15Dep{}, Nets: []string{}, Vols: [][2]string{}, Secrets: []string{}, Configs: []string{}}
+	return c15Svc{Image: image, Profiles: []string{}, Deps: map[string]c15Dep{}, Nets: []string{}, Vols: [][2]string{}, Secrets: []string{}, Configs: []string{}, Env: map[string]*string{}}
 }
 
 func c15EmptyState() c15State {
 	return c15State{Services: map[string]c15Svc{}, Disabled: map[string]c15Svc{}, Profiles: []string{},
-		Networks: map[string]string{}, Volumes: map[string]string{}, Secrets: map[string]string{}, Configs: map[string]string{}}
+		Networks: map[string]string{}, Volumes: map[string]string{}, Secrets: map[string]string{}, Configs: map[string]string{}, Environment: map[string]string{}}
 }
 
 // every non-empty subset of names (in order)
@@ -79,6 +79,8 @@ func c15SmallProjects(n int, emit func(c15State)) {
 				x /= 3
 				switch i {
 				case 0:
+					unset, set := (*string)(nil), "own"
+					s.Env = map[string]*string{"A": unset, "B": &set, "Z": unset}
 					s.Nets = []string{"n1"}
 					s.Vols = [][2]string{{"volume", "v1"}, {"bind", "v2"}}
 				case 1:
@@ -105,6 +107,7 @@ func c15SmallProjects(n int, emit func(c15State)) {
 			st.Volumes = map[string]string{"v1": "V1", "v2": "V2"}
 			st.Secrets = map[string]string{"s1": "S1", "s2": "S2", "s3": "S3"}
 			st.Configs = map[string]string{"c1": "C1", "c2": "C2"}
+			st.Environment = map[string]string{"A": "proj-A", "B": "proj-B"}
 			emit(st)
 		}
 	}
@@ -146,6 +149,20 @@ func c15RandSvc(r *rand.Rand, name string) c15Svc {
 		s.Build = &b
 	}
 	s.Configs = c15Pick(r, []string{"c0", "c1", "c2"}, 0.25)
+	if r.Intn(3) == 0 { // environment: some variables with a value, some listed without one
+		for _, k := range c15Pick(r, []string{"A", "B", "C", "D"}, 0.5) {
+			switch r.Intn(3) {
+			case 0:
+				s.Env[k] = nil
+			case 1:
+				v := ""
+				s.Env[k] = &v
+			default:
+				v := "svc-" + k
+				s.Env[k] = &v
+			}
+		}
+	}
 	return s
 }
 
@@ -175,7 +192,18 @@ func c15RandProject(r *rand.Rand, malformed bool) (c15State, []string) {
 	if malformed {
 		for k := 0; k < 1+r.Intn(3); k++ {
 			x := names[r.Intn(n)]
-			switch r.Intn(6) {
+			switch r.Intn(8) {
+			case 6: // Name differs from the map key: an alias nobody else uses
+				s := svcs[x]
+				s.Name = x + "-alias"
+				svcs[x] = s
+			case 7: // two services carry each other's Name (names stay distinct)
+				y := names[r.Intn(n)]
+				if y != x && svcs[x].Name == "" && svcs[y].Name == "" {
+					sx, sy := svcs[x], svcs[y]
+					sx.Name, sy.Name = y, x
+					svcs[x], svcs[y] = sx, sy
+				}
 			case 0: // self dependency
 				svcs[x].Deps[x] = c15Dep{Required: r.Intn(2) == 0, Cond: "service_started"}
 			case 1: // back edge (cycle)
@@ -242,6 +270,9 @@ func c15RandProject(r *rand.Rand, malformed bool) (c15State, []string) {
 	}
 	for _, k := range c15Pick(r, []string{"c0", "c1", "c2", "c3"}, 0.6) {
 		st.Configs[k] = "C-" + k
+	}
+	for _, k := range c15Pick(r, []string{"A", "B", "C"}, 0.5) {
+		st.Environment[k] = []string{"proj-" + k, ""}[r.Intn(2)]
 	}
 	return st, all
 }
@@ -375,7 +406,7 @@ func runC15(ctx *core.Ctx) {
 		add(c15Args{Init: st, Ops: ops})
 	}
 
-	// 3. malformed stream: cycles, self and dangling dependencies, overlapping sets, unknown and empty names
+	// 3. malformed stream: cycles, self and dangling dependencies, overlapping sets, unknown and empty names, Name ≠ key
 	for i := 0; i < ctx.Pick(5000, 60000); i++ {
 		st, all := c15RandProject(ctx.Rng, true)
 		n := 1 + ctx.Rng.Intn(5)
@@ -388,6 +419,6 @@ func runC15(ctx *core.Ctx) {
 		add(c15Args{Init: st, Ops: ops})
 	}
 	ctx.Wait()
-	ctx.Note("c15hist: %d steps compared with the model and decided against the spec; %d select steps agree for a non-sorted iteration order of the service map; %d steps returned 'no such service'; spec skipped on %d steps whose receiver is not a partition (malformed stream)",
+	ctx.Note("c15hist: %d steps compared exactly with the model and decided against the spec; %d select steps look like the pre-fix order-dependent loop (must be 0); %d steps returned 'no such service'; spec skipped on %d steps whose receiver is not a partition or has a Name that differs from its key (malformed stream)",
 		c15Steps.Load(), c15ViaOrder.Load(), c15ErrSteps.Load(), c15SpecSkipped.Load())
 }
